@@ -12,3 +12,8 @@ pub use gob::decode_gob;
 pub use macroblock::decode_macroblock;
 pub use picture::decode_picture;
 pub use reader::H263Reader;
+
+// Verification hook (off by default): `H263Reader::read_vlc` is public but its
+// table type lives in a private module, so an outside harness cannot name it.
+#[cfg(h263_rs_verif)]
+pub use vlc::{Entry, Table};
